@@ -111,6 +111,26 @@ L11 == [name |-> "L11", linear |-> FALSE, vars |-> <<"a", "b">>, logv |-> {"a", 
         roots |-> <<R(1), Q(1, 2), R(2)>>, fwd |-> 1]
 L11Rk(k) == << <<IF k = 0 THEN ROne ELSE RZero>>, <<HalfPow(k)>> >>
 
+\* two purely forward-looking variables that rotate, x{+1} = x - y + 1 + ex and y{+1} = x + y + 2 (roots 1 + i and 1 - i: a COMPLEX
+\* unstable pair, certified by trace 2 and determinant 2 of the block), and a backward-looking q = 1/2 q{-1} + x.  With z = (x, y):
+\* z_t = - sum_k Ainv^(k+1) (c + e1 ex_{t+k}),  Ainv = 1/2 [[1, 1], [-1, 1]],  c = (1, 2);  steady state (-2, 1, -4).
+\* Ainv^n e1 for n = 1..8 (tabulated: computing the powers by name in every use made TLC crawl; nothing here is trusted, the
+\* structural equations are checked on every behaviour)
+L12Col == << <<Q(1, 2), Q(-1, 2)>>, <<RZero, Q(-1, 2)>>, <<Q(-1, 4), Q(-1, 4)>>, <<Q(-1, 4), RZero>>,
+             <<Q(-1, 8), Q(1, 8)>>, <<RZero, Q(1, 8)>>, <<Q(1, 16), Q(1, 16)>>, <<Q(1, 16), RZero>> >>
+L12 == [name |-> "L12", linear |-> TRUE, vars |-> <<"x", "y", "q">>, logv |-> {}, shocks |-> <<"ex">>,
+        eqs |-> << [tx |-> << <<R(1), 1, 1>>, <<R(-1), 1, 0>>, <<R(1), 2, 0>> >>, te |-> << <<R(-1), 1>> >>, c |-> R(-1)],
+                   [tx |-> << <<R(1), 2, 1>>, <<R(-1), 1, 0>>, <<R(-1), 2, 0>> >>, te |-> <<>>, c |-> R(-2)],
+                   [tx |-> << <<R(1), 3, 0>>, <<Q(-1, 2), 3, -1>>, <<R(-1), 1, 0>> >>, te |-> <<>>, c |-> RZero] >>,
+        mvars |-> <<"obs">>, mshocks |-> <<"w">>,
+        meqs |-> << [tx |-> << <<R(1), 1, 0>>, <<R(1), 3, -1>> >>, d |-> R(1), tw |-> << <<R(1), 1>> >>] >>,
+        T |-> << <<RZero, RZero, RZero>>, <<RZero, RZero, RZero>>, <<RZero, RZero, Q(1, 2)>> >>, K |-> <<R(-2), R(1), R(-2)>>,
+        roots |-> <<Q(1, 2)>>, cquads |-> << <<R(2), R(2)>> >>, fwd |-> 2]
+L12Rk(k) == IF k + 1 > Len(L12Col) THEN << <<RZero>>, <<RZero>>, <<RZero>> >>
+            ELSE LET v == L12Col[k + 1] IN << <<RNeg(v[1])>>, <<RNeg(v[2])>>, <<RNeg(v[1])>> >>
+\* complex-conjugate pairs of roots of a model, as <<trace, determinant>> of their real 2x2 block (modulus squared = determinant)
+CQuads(m) == IF "cquads" \in DOMAIN m THEN m.cquads ELSE <<>>
+
 \* root-count instances: both roots stable (indeterminate) / both unstable (no stable solution)
 L7 == [name |-> "L7", linear |-> TRUE, vars |-> <<"x">>, logv |-> {}, shocks |-> <<"ex">>,
        eqs |-> << [tx |-> << <<R(6), 1, 1>>, <<R(-5), 1, 0>>, <<R(1), 1, -1>> >>, te |-> << <<R(1), 1>> >>, c |-> RZero] >>,
@@ -119,10 +139,10 @@ L8 == [name |-> "L8", linear |-> TRUE, vars |-> <<"x">>, logv |-> {}, shocks |->
        eqs |-> << [tx |-> << <<R(1), 1, 1>>, <<R(-5), 1, 0>>, <<R(6), 1, -1>> >>, te |-> << <<R(1), 1>> >>, c |-> RZero] >>,
        mvars |-> <<>>, mshocks |-> <<>>, meqs |-> <<>>, T |-> <<>>, K |-> <<>>, roots |-> <<R(2), R(3)>>, fwd |-> 1]
 
-Model(id) == CASE id = "L1" -> L1 [] id = "L2" -> L2 [] id = "L3" -> L3 [] id = "L6" -> L6 [] id = "L9" -> L9 [] id = "L4" -> L4 [] id = "L10" -> L10 [] id = "L11" -> L11
+Model(id) == CASE id = "L1" -> L1 [] id = "L2" -> L2 [] id = "L3" -> L3 [] id = "L6" -> L6 [] id = "L9" -> L9 [] id = "L4" -> L4 [] id = "L10" -> L10 [] id = "L11" -> L11 [] id = "L12" -> L12
                [] id = "L7" -> L7 [] id = "L8" -> L8
-Rk(id, k) == CASE id = "L1" -> L1Rk(k) [] id = "L2" -> L2Rk(k) [] id = "L3" -> L3Rk(k) [] id = "L6" -> L6Rk(k) [] id = "L9" -> L9Rk(k) [] id = "L4" -> L4Rk(k) [] id = "L10" -> L10Rk(k) [] id = "L11" -> L11Rk(k)
-SolvableIds == {"L1", "L2", "L3", "L4", "L6", "L9", "L10"}
+Rk(id, k) == CASE id = "L1" -> L1Rk(k) [] id = "L2" -> L2Rk(k) [] id = "L3" -> L3Rk(k) [] id = "L6" -> L6Rk(k) [] id = "L9" -> L9Rk(k) [] id = "L4" -> L4Rk(k) [] id = "L10" -> L10Rk(k) [] id = "L11" -> L11Rk(k) [] id = "L12" -> L12Rk(k)
+SolvableIds == {"L1", "L2", "L3", "L4", "L6", "L9", "L10", "L12"}
 GrowthIds == {"L11"}        \* steady state with a non-zero change
 
 \* ---- source text -----------------------------------------------------------------------------------
